@@ -26,7 +26,10 @@ RULE = ("every client verb (-chs, -storeobject, -retrieveobject, -deleteobject, 
         "the API call with the same values - typed as the API requires - on another copy. Oracle: equal directory "
         "abstraction (python_client.log ignored), printed cid / digests / path / content equal to the API return, "
         "equal exception class; client-created stores open through the API with the same properties and vice "
-        "versa. distinct_nontrivial = distinct (verb, option subset, value classes, start state).")
+        "versa; store options (-dp/-wp/-ap/-nsp) on an ordinary verb do not override the pinned configuration; -chs on an "
+        "existing store behaves like the constructor; a relative -path is resolved against the working directory; two "
+        "stores with different configurations are used alternately by the client in one process. distinct_nontrivial = "
+        "distinct (verb, option subset, value classes, start state).")
 ASSUMPTIONS = ["-knbvm paths need a Postgres server and are out of reach in the sandbox",
                "the client substitutes the default namespace for an omitted -formatid on all three metadata verbs; "
                "the oracle uses that documented substitution (so '-deletemetadata' without -formatid is compared with "
@@ -120,6 +123,12 @@ def build_cases():
         for algo in ("sha256", "SHA-256", "md5", "sha3_256", "blake2b", "sha999", None):
             for pid in ("k1", "unknown.pid"):
                 cases.append(("getchecksum", ("algo",) if algo else (), algo or "missing", state, pid))
+    for state in ("empty", "populated"):
+        cases.append(("storeobject+store-options", ("dp", "wp"), "valid", state, "new.pid"))
+        cases.append(("storemetadata+relative-path", (), "valid", state, "k1"))
+        cases.append(("chs-again", (), "other-depth", state, "new.pid"))
+        cases.append(("chs-again", (), "same", state, "new.pid"))
+    cases.append(("two-stores", (), "valid", "none", "x"))
     for d, w, a in ((3, 2, "SHA-256"), (1, 1, "MD5"), (2, 4, "SHA-512"), (5, 1, "SHA-1"), (2, 2, "sha256"), (2, 2, "SHA-224")):
         cases.append(("chs", (), "valid", "none", (d, w, a)))
         cases.append(("api_created", (), "valid", "none", (d, w, a)))
@@ -142,7 +151,7 @@ def run_shard(cases, sub_seed, vidx=0):
         objp = os.path.join(scratch, "obj.txt")
         open(objp, "wb").write(ASCII)
         other = os.path.join(scratch, "other.txt")
-        open(other, "wb").write(b"another ascii object\n")
+        open(other, "wb").write(b"another ascii object, longer than the 1000 bytes the client prints\n" * 30)
         docp = os.path.join(scratch, "doc.xml")
         open(docp, "wb").write(b"<?xml version='1.0'?><sysmeta>ascii</sysmeta>\n")
         docx = os.path.join(scratch, "docx.xml")
@@ -198,6 +207,37 @@ def run_shard(cases, sub_seed, vidx=0):
                                 res.violation(dict(shape, symptom="client-stored-object-not-visible-to-api"), wit)
                 rmtree(root)
                 continue
+            if verb == "two-stores":
+                # two stores with different configurations used alternately by the client in ONE process
+                from ..absstate import Layout as _L
+                r1, r2 = os.path.join(scratch, "two_a"), os.path.join(scratch, "two_b")
+                rmtree(r1); rmtree(r2)
+                o = []
+                o.append(run_client([r1, "-chs", "-dp=3", "-wp=2", "-ap=SHA-256", f"-nsp={DEFAULT_NS}"])[0])
+                o.append(run_client([r2, "-chs", "-dp=1", "-wp=1", "-ap=MD5", "-nsp=urn:other:ns"])[0])
+                o.append(run_client([r1, "-storeobject", "-pid=pa", f"-path={objp}"])[0])
+                o.append(run_client([r2, "-storeobject", "-pid=pb", f"-path={objp}"])[0])
+                o.append(run_client([r1, "-storemetadata", "-pid=pa", f"-path={docp}"])[0])
+                o.append(run_client([r2, "-storemetadata", "-pid=pb", f"-path={docp}"])[0])
+                o.append(run_client([r1, "-storeobject", "-pid=pa2", f"-path={objp}"])[0])
+                res.count("client_vs_api_compared")
+                bad = [x.brief() for x in o if not x.ok]
+                if bad:
+                    res.violation(dict(shape, symptom="two-stores-in-one-process:client-call-failed", first=bad[0]), wit)
+                else:
+                    for root_, cfg_, pids_ in ((r1, (3, 2, "SHA-256", DEFAULT_NS), ["pa", "pa2"]), (r2, (1, 1, "MD5", "urn:other:ns"), ["pb"])):
+                        lay_ = _L(*cfg_)
+                        a_ = abstract(root_, lay_, pids_, [(p_, None) for p_ in pids_])
+                        want_cid = lay_.cid_of(ASCII)
+                        ok_ = (set(a_.objects) == {want_cid} and all(a_.pid_refs.get(p_) == want_cid for p_ in pids_)
+                               and sorted(a_.cid_lines(want_cid) or []) == sorted(pids_) and not a_.alien and not a_.residue
+                               and (pids_[0], cfg_[3]) in a_.metadata)
+                        if not ok_:
+                            wit["state"] = a_.describe()
+                            res.violation(dict(shape, symptom="two-stores-in-one-process:wrong-store-contents"), wit)
+                            break
+                rmtree(r1); rmtree(r2)
+                continue
             ra, rb = os.path.join(scratch, "cli"), os.path.join(scratch, "api")
             for r in (ra, rb):
                 rmtree(r)
@@ -242,6 +282,25 @@ def run_shard(cases, sub_seed, vidx=0):
                     if m.cid not in txt or str(m.obj_size) not in txt or any(v not in txt for v in m.hex_digests.values()):
                         wit["stdout"] = txt[:500]
                         res.violation(dict(shape, symptom="printed-metadata-differs"), wit)
+            elif verb == "storeobject+store-options":
+                # store options on an ordinary verb must not override the pinned configuration
+                argv = [ra, "-storeobject", f"-pid={pid}", f"-path={objp}", "-dp=5", "-wp=1", "-ap=MD5", "-nsp=urn:ignored"]
+                o1, txt = run_client(argv)
+                o2 = call(api.store_object, pid, objp)
+            elif verb == "storemetadata+relative-path":
+                cwd0 = os.getcwd()
+                os.chdir(os.path.dirname(docp))
+                try:
+                    argv = [ra, "-storemetadata", f"-pid={pid}", f"-path={os.path.basename(docp)}"]
+                    o1, txt = run_client(argv)
+                    o2 = call(api.store_metadata, pid, os.path.basename(docp), DEFAULT_NS)
+                finally:
+                    os.chdir(cwd0)
+            elif verb == "chs-again":
+                dd = vd + 1 if variant == "other-depth" else vd
+                argv = [ra, "-chs", f"-dp={dd}", f"-wp={vw}", f"-ap={valgo}", f"-nsp={DEFAULT_NS}"]
+                o1, txt = run_client(argv)
+                o2 = call(open_store, rb, dd, vw, valgo, DEFAULT_NS)
             elif verb == "getchecksum":
                 if "algo" in sub:
                     argv.append(f"-algo={variant}")
